@@ -1,7 +1,8 @@
 (* C20: executable comparison functions used by the harness-generated case files
    (model + K9 context vs. observations of the real implementation). *)
 From Coq Require Import List String Ascii ZArith Bool.
-From Verif Require Import Regex PyK PyK_schema SchemaGen K9Proofs SchemaRoundtrip.
+From Verif Require Core TyModel.
+From Verif Require Import Regex PyK PyK_schema SchemaGen K9Proofs SchemaRoundtrip SchemaDefault.
 From VerifGen Require Import K9.
 Import ListNotations.
 Open Scope string_scope.
@@ -37,11 +38,12 @@ Definition uri_of (c: kv) : option string :=
 (* one correspondence case: class table, (all_refs, dialect, ref_prefix), with_definitions, with_dialect_uri,
    builder?, roots, expected canonical documents, expected definitions, expected RecursionError *)
 Definition mcase : Type :=
-  (list (string * rcls) * kv * (kv * kv * kv) * (bool * bool) * bool * list ty * list string * list (string * string) * bool)%type.
+  (list (string * rcls) * (list (string * Core.pv) * dvals) * kv * (kv * kv * kv) * (bool * bool) * bool * list ty * list string
+   * list (string * string) * bool)%type.
 
 Definition corr_ok (c: mcase) : bool :=
-  let '(ER, pctx, (ar, D, p), (wd, wu), builder, roots, exp_docs, exp_defs, exp_rec) := c in
-  let E := digest_tab ER in
+  let '(ER, (etab, vals), pctx, (ar, D, p), (wd, wu), builder, roots, exp_docs, exp_defs, exp_rec) := c in
+  let E := digest_tab (prerender etab vals ER) in
   match ctx_for builder wd pctx ar D p with
   | Ok ctx =>
       match cfg_of_ctx ctx with
@@ -113,8 +115,8 @@ Definition rt_out (c: js * string) : bool := match norm (fst c) with NOut => fal
 
 (* debugging aid: the model's documents for a case *)
 Definition corr_dump (c: mcase) : list string :=
-  let '(ER, pctx, (ar, D, p), (wd, wu), builder, roots, exp_docs, exp_defs, exp_rec) := c in
-  let E := digest_tab ER in
+  let '(ER, (etab, vals), pctx, (ar, D, p), (wd, wu), builder, roots, exp_docs, exp_defs, exp_rec) := c in
+  let E := digest_tab (prerender etab vals ER) in
   match ctx_for builder wd pctx ar D p with
   | Ok ctx =>
       match cfg_of_ctx ctx with
